@@ -20,7 +20,7 @@ RULE = ('Generated (Domain via dr|dk, length 1-64 [thorough 1-512]; value table 
         'calculate raises (array input, two-column file) or createPRISM / first cost raises (one-column file); never an omega from '
         'mismatched data. (export) PairTable.exportToMatrixArray exports tables of arrays verbatim iff all entries have the same length (one '
         'entry of length 1, 2, n-1, n+1, n/2 or 2n must be refused). Non-trivial = domain length >= 2 and values not constant; distinct = spec hash.')
-ASSUMPTIONS = ['values and k are finite floats; files contain plain whitespace separated numbers without comments',
+ASSUMPTIONS = ['values and k are finite floats; files are what numpy.loadtxt (the documented reader) accepts: whitespace/tab separated numbers in repr / %.18e / upper-case-E notation, optional # header, # comment lines, trailing comments, padding and blank lines',
                'perturbations of the k column are never borderline: <= 0.5x or >= 2x the allclose tolerance of the point (<= 0.1x / >= 10x for the uniform variants)',
                'a grid whose point count differs from length (a Domain defect judged by C07) is counted and skipped']
 ATOL, RTOL = 1e-8, 1e-5
@@ -40,6 +40,7 @@ def spec_strategy(max_len):
         'with_k': st.sampled_from([True, True, True, False]),
         'kvar': kvar,
         'vlen': st.sampled_from([0, 0, 0, -1, 1, -2, 3]),
+        'layout': st.sampled_from(LAYOUTS),
         'rank': st.sampled_from([1, 2]),
         'rho': specs.logfloat(-3, 0, 4)})
 
@@ -96,10 +97,28 @@ def _perturbed_k(spec, k):
     return out, True
 
 
-def _write(path, cols):
+LAYOUTS = ['repr', 'repr', 'savetxt', 'tabs', 'header', 'comments', 'padded', 'upperE']
+
+
+def _write(path, cols, layout='repr'):
+    """the same numbers in different layouts, every one of them a plain numpy.loadtxt file (the documented reader): numbers are
+    written with 17 significant digits or repr, so the text round-trips to the same doubles"""
+    fmt = {'savetxt': lambda x: '%.18e' % x, 'upperE': lambda x: ('%.17E' % x)}.get(layout, lambda x: repr(float(x)))
+    sep = {'tabs': '\t', 'padded': '    '}.get(layout, ' ')
     with open(path, 'w') as fh:
-        for row in zip(*cols):
-            fh.write(' '.join(repr(float(x)) for x in row) + '\n')
+        if layout in ('header', 'comments'):
+            fh.write('# k omega(k) -- written by the test harness\n')
+        for i, row in enumerate(zip(*cols)):
+            line = sep.join(fmt(float(x)) for x in row)
+            if layout == 'padded':
+                line = '  ' + line + '   '
+            if layout == 'comments' and i % 3 == 1:
+                line += '   # row %d' % i
+            fh.write(line + '\n')
+            if layout == 'comments' and i % 4 == 2:
+                fh.write('# a comment line between the data rows\n')
+        if layout in ('padded', 'header'):
+            fh.write('\n\n')
 
 
 def _bits(a):
@@ -147,7 +166,8 @@ class Tabulated(Sub):
             if is_file:
                 tmp = tempfile.mkdtemp(prefix='pbt_c12_')
                 path = os.path.join(tmp, 'omega.dat')
-                _write(path, [kcol, vals] if source == 'file2' else [vals])
+                _write(path, [kcol, vals] if source == 'file2' else [vals], spec.get('layout', 'repr'))
+                out.label('layout=' + spec.get('layout', 'repr'))
                 make = lambda: P.omega.FromFile(path)
             elif source == 'list':
                 make = lambda: P.omega.FromArray(vals.tolist(), None if kcol is None else kcol.tolist())
